@@ -36,7 +36,7 @@ TECHNIQUE = 'Coq proof (kernel-computed 400-year sweep lifted by periodicity + l
 
 LO = 693596; HI = 839693
 MONTHS = ['January', 'February', 'March', 'April', 'May', 'June', 'July', 'August', 'September', 'October', 'November', 'December']
-DATE_SP = ['date', 'tuple', 'int_ymd', 'ordinal', 'np_D', 'ymd8', 'dBY', 'BdY', 'dbY'] + \
+DATE_SP = ['date', 'tuple', 'int_ymd', 'ordinal', 'np_D', 'ymd8', 'dBY', 'BdY', 'dbY', 'YBd', 'Y-b-d', 'Y.B.d'] + \
           ['%s:%s:%s:%s' % (k, sep, pad, dia) for k in ('dmy', 'mdy') for sep in '-/. ' for pad in (0, 1) for dia in ('uk', 'us')]
 TIME_SP = ['datetime', 'np_us', 'np_ns', 'np_s', 'pdts', 'iso', 'iso_space', 'tuple_hms', 'ymd', 'dt2str']
 
@@ -79,6 +79,9 @@ def build_call(case):
     if sp == 'dBY': return (lambda: dt('%d %s %d' % (d, MONTHS[m - 1], y), dialect=case.get('dia', 'uk'))), ('t', t)
     if sp == 'BdY': return (lambda: dt('%s %d %d' % (MONTHS[m - 1], d, y), dialect=case.get('dia', 'uk'))), ('t', t)
     if sp == 'dbY': return (lambda: dt('%d %s %d' % (d, MONTHS[m - 1][:3], y), dialect=case.get('dia', 'uk'))), ('t', t)
+    if sp == 'YBd': return (lambda: dt('%d %s %d' % (y, MONTHS[m - 1], d), dialect=case.get('dia', 'uk'))), ('t', t)
+    if sp == 'Y-b-d': return (lambda: dt('%d-%s-%02d' % (y, MONTHS[m - 1][:3], d), dialect=case.get('dia', 'uk'))), ('t', t)
+    if sp == 'Y.B.d': return (lambda: dt('%d.%s.%d' % (y, MONTHS[m - 1], d), dialect=case.get('dia', 'uk'))), ('t', t)
     if sp == 'ymd': return (lambda: ymd(T)), ('t', t - tod)
     if sp == 'dt2str': return (lambda: dt(dt2str(T))), ('t', t)
     use_ymd = sp.startswith('ymdstr:')
@@ -143,7 +146,7 @@ def coq_case(case):
         k, sep, pad, dia = sp.replace('ymdstr:', '').split(':')
         a, b = (d, m) if k == 'dmy' else (m, d)
         return '(SpDMY %s %d %d %d)' % ('true' if dia == 'us' else 'false', a, b, y)
-    return '(SpFields %d %d %d %d)' % (y, m, d, (tod - tod % 1000000) if sp == 'np_s' else tod if sp not in ('date', 'np_D', 'ymd8', 'dBY', 'BdY', 'dbY') else 0)
+    return '(SpFields %d %d %d %d)' % (y, m, d, (tod - tod % 1000000) if sp == 'np_s' else tod if sp not in ('date', 'np_D', 'ymd8', 'dBY', 'BdY', 'dbY', 'YBd', 'Y-b-d', 'Y.B.d') else 0)
 
 def nontrivial(case, result):
     sp = case['sp']
@@ -193,7 +196,7 @@ def gen_cases(rng, tier):
             cases.append({'sp': 'ymdstr:' + rng.choice([x for x in DATE_SP if ':' in x]), 't': t0})
         # month names under the US dialect too
         if i % 5 == 0:
-            cases.append({'sp': rng.choice(['dBY', 'BdY', 'dbY']), 't': t0, 'dia': 'us'})
+            cases.append({'sp': rng.choice(['dBY', 'BdY', 'dbY', 'YBd', 'Y-b-d', 'Y.B.d']), 't': t0, 'dia': 'us'})
     n_time = 1500 if tier == 'quick' else 100000
     for _ in range(n_time):
         n = rng.randrange(LO, HI)
